@@ -709,3 +709,5 @@ func constOf(o types.Object) string {
 	}
 	return ""
 }
+
+func ssautilAllFunctions(c *Ctx) map[*ssa.Function]bool { return ssautil.AllFunctions(c.Prog) }
